@@ -93,3 +93,9 @@ CHECKS["C05"] = {
   "text": "Per bar: status refresh of every market with the bar's timestamp, then before-bar, trigger, on-bar, optional extra refreshes (this bar's timestamp, written markets only), update() of every market exactly once, after-bar, then notify of exactly the records made in this bar in recording order; bars equal the independently binned grid (1/2/5/15/60 minutes, any start), strictly increasing, once each; every record stamped with its bar (all four phases and update-time liquidations / expiries); accepted recording operations produce a record; Actuator.actions equals the recording sequence; account history has one row per bar with the bar's timestamp and price-frame prices; finalize once at the end. Sampled exploration.",
   "note": "Observation is by instance-level wrapping (no source hooks). Extra refreshes are allowed where the statement is silent. Rejected or partially executed helpers are not required to produce records.",
 }
+
+CHECKS["C02"] = {
+  "technique": "Hypothesis generated multi-market universes; differential runs of the real Actuator on two histories sharing a prefix of k bars (every later row changed in every column), frame fingerprints before / after, and a re-run on the same frame objects",
+  "text": "For a generated universe, program and cut bar k: account rows 0..k, records stamped <= bar k, per-operation outcomes and deep copies of the snapshots handed to all four strategy hooks for bars <= k are identical between H and H' (H' differs after bar k in ETH / oSQTH / AVAX paths, pool ticks, liquidity, volumes, indices, normalisation factor, GLP / GM pool state, option marks of later hours); every supplied frame (market data incl. nested order-book lists, price frame) has the same fingerprint before the Actuator sees it and after the run; a second run on the very same frame objects with a fresh account reproduces history and records exactly. All market types, 1/2/5/15/60-minute bars. Sampled exploration.",
+  "note": "'Bars 0..k' means every minute row of bins 0..k and every option snapshot whose hour is <= bar k's hour. A run may replace market.data by a resampled frame; the supplied objects are what is fingerprinted.",
+}
